@@ -47,6 +47,15 @@ CONC_TB = ["sequentially consistent interleaving of the atomic / lock operations
            "the cfg(prometheus_verif) sync shim and the scheduler (harness/src/sched.rs) decide what 'the same schedule' means"]
 
 PROPS = {
+    "C19": dict(
+        module="Prom.Props.C19",
+        areas=[dict(area="sm", quick=12, thorough=120)],
+        rule="a generated Rust program of N macro declarations (make_static_metric! / make_auto_flush_static_metric!; 1-4 labels x 1-4 values; inline lists, label_enum references, renamed values; "
+             "Counter / IntCounter / Gauge / IntGauge / Histogram and Local* / auto-flush forms; permuted backing label order) is compiled with the REAL proc-macro and run: every field path, every get(enum) chain and every try_get(str) chain "
+             "(declared and undeclared values) updates the addressed metric (+ flush) and reports which child of the backing vector changed; case = one accessor query; non-trivial = a declaration with at least two labels; distinct by query text",
+        trusted=["rustc's expansion and type-checking of the generated tokens is exercised per generated program, not proved (translation-validation style)",
+                 "tools/gen_sm.py computes the expected child from the declaration independently of the Lean model"],
+    ),
     "C20": dict(
         module="Prom.Props.C20",
         areas=[dict(area="macro", quick=1500, thorough=60000)],
